@@ -193,6 +193,11 @@ def place_int(w: int, h: int, d: int, x: int, y: int, z: int, x2: int, y2: int) 
         p = a[PositionComponent]
         if raised is not None or p is None or (p.x, p.y, p.z) != (x, y, z) or env.get_agent("a") is not a:
             return hx.end(hx.fail("accepted placement", raised=raised))
+        if alias:
+            import warnings
+            warnings.simplefilter("ignore")
+            if p.getPosition() != (x, y, z) or p.xyz() != (x, y, z) or p.xy() != (x, y) or p.yz() != (y, z) or p.xz() != (x, z):
+                return hx.end(hx.fail("position accessors disagree"))
         # placing the same (resident) agent again, anywhere, is rejected and changes nothing - not even its position
         try:
             env.add_agent(a, x2, y2, z)
